@@ -25,6 +25,7 @@ static long long vs_now_ns()
 #include "tse.hpp"
 #endif
 #include "path_oracle.hpp"
+#include "planners.hpp"
 #include <ompl/base/SpaceInformation.h>
 #include <ompl/base/ProblemDefinition.h>
 #include <ompl/base/PlannerTerminationCondition.h>
@@ -414,14 +415,183 @@ static void scPlanner(const std::string &which, tse::Out &out)
     P.reset();
 }
 
+
+// ------------------------------------------------------------------ C03 under the scheduler: always-multi-threaded planners
+// (compiled with -DSCEN_C03 into c03_threads): the termination condition first fires at evaluation k+1 (counted over ALL threads of
+// the planner), for every k up to the cap, then the search is resumed, cleared and interrupted again; C03's clauses are checked
+// after every call, in every schedule with <= P preemptions.
+static void scInterrupt(const std::string &planner, const std::string &map, int k, tse::Out &out)
+{
+    vw::Cfg c;
+    c.planner = "RRT";  // Problem's own planner slot (unused)
+    c.map = map;
+    c.budget = k;
+    std::unique_ptr<vw::Problem> P = std::make_unique<vw::Problem>(c);
+    ob::PlannerPtr pl;
+    unsigned flags = 0;
+    if (planner == "CForest")
+    {
+        auto p = std::make_shared<og::CForest>(P->si);
+        p->setNumThreads(2);
+        pl = p;
+    }
+    else
+    {
+        const vpl::Ent *e = vpl::find(planner);
+        pl = e->make(P->si);
+        flags = e->flags;
+    }
+    pl->setProblemDefinition(P->pdef);
+    pl->setup();
+    P->planner = pl;
+    std::string obs;
+    auto solve = [&](int budget, const std::string &step) {
+        std::atomic<long> calls{0}, firstTrue{-1};
+        size_t before = P->pdef->getSolutionCount();
+        bool hadTop = before > 0;
+        ob::PlannerSolution topBefore(nullptr);
+        if (hadTop)
+            topBefore = P->pdef->getSolutions()[0];
+        ob::PlannerTerminationCondition ptc([&calls, &firstTrue, budget] {
+            long n = ++calls;
+            bool t = n > budget;
+            if (t)
+            {
+                long e = -1;
+                firstTrue.compare_exchange_strong(e, n);
+            }
+            return t;
+        });
+        ob::PlannerStatus st = pl->solve(ptc);
+        long extra = firstTrue.load() < 0 ? 0 : calls.load() - firstTrue.load();
+        auto fail = [&](const std::string &kx, const std::string &w) {
+            std::string kk = kx;
+            if (kk.substr(0, 4) == "C01|")
+                kk = "C03|threaded|" + kk.substr(4);
+            out.fail(kk, w + " [k=" + std::to_string(k) + ", step " + step + "]");
+        };
+        if (extra > 60)
+            fail("C03|threaded|late-return|" + planner, "solve() evaluated the termination condition " + std::to_string(extra) + " more times after it first became true");
+        vo::checkStatus(*P, st, before, planner, fail);
+        for (auto &sol : P->pdef->getSolutions())
+            vo::checkSolution(*P, sol, flags, planner, fail);
+        if (hadTop && P->pdef->getSolutionCount() > 0)
+        {
+            ob::PlannerSolution top = P->pdef->getSolutions()[0];
+            bool worse = (!topBefore.approximate_ && top.approximate_) ||
+                         (topBefore.approximate_ && top.approximate_ && top.difference_ > topBefore.difference_ + 1e-9) ||
+                         (!topBefore.approximate_ && !top.approximate_ && top.path_ && topBefore.path_ && top.path_->length() > topBefore.path_->length() + 1e-9);
+            if (worse)
+                fail("C03|threaded|resume-worsens-solution|" + planner, "a continued solve() made the best reported solution worse");
+        }
+        else if (hadTop)
+            fail("C03|threaded|resume-loses-solution|" + planner, "a continued solve() removed the reported solution");
+        obs += step + "=" + st.asString() + "/" + std::to_string(P->pdef->getSolutionCount()) + " ";
+        if (getenv("VERIF_DEBUG"))
+        {
+            obs += "[calls=" + std::to_string(calls.load()) + " firstTrue=" + std::to_string(firstTrue.load());
+            for (auto &sol : P->pdef->getSolutions())
+            {
+                obs += sol.approximate_ ? " approx:" : " exact:";
+                if (auto *pg = dynamic_cast<og::PathGeometric *>(sol.path_.get()))
+                    for (size_t i = 0; i < pg->getStateCount(); ++i)
+                        obs += vo::sstr(P->space.get(), pg->getState(i));
+            }
+            obs += "] ";
+        }
+    };
+    solve(k, "interrupt");
+    solve(k + 25, "resume");
+    pl->clear();
+    P->pdef->clearSolutionPaths();
+    solve(k, "clear+interrupt");
+    out.obs = obs;
+    pl.reset();
+    P->planner.reset();
+    P.reset();
+}
+
 struct Scenario
 {
-    const char *name;
+    std::string name;
     std::function<void(tse::Out &)> body;
     bool part1;       // documented thread-safe surface: races there are violations (after confirmation)
     int P_quick, P_thorough;
     long cap;
 };
+#ifdef SCEN_C03
+static const char *PROP = "C03";
+static std::vector<std::string> jobNames()
+{
+    std::vector<std::string> j;
+    for (const char *pl : {"PRM", "PRMstar", "SPARS", "SPARStwo", "CForest"})
+        for (const char *m : {"wallgap4", "enclosed4", "empty4"})
+            j.push_back(std::string(pl) + "-" + m);  // wall between start and goal / goal enclosed (no exact solution) / direct line of sight
+    return j;
+}
+static std::vector<Scenario> jobScenarios(const std::string &job, bool thorough)
+{
+    std::vector<Scenario> v;
+    std::string pl = job.substr(0, job.find('-')), m = job.substr(job.find('-') + 1);
+    std::vector<int> ks;
+    bool heavy = pl == "CForest";  // two RRT* instances + main: an order of magnitude more schedules per execution
+    if (thorough)
+        for (int k = 0; k <= (heavy ? 8 : 40); ++k)
+            ks.push_back(k);
+    else
+        ks = {0, 1, 2, 3, 5, 8, 13, 21};
+    // CForest: quick explores the non-preemptive schedules (every choice at blocking points), thorough adds one preemption
+    for (int k : ks)
+        v.push_back({job + "-k" + std::to_string(k), [pl, m, k](tse::Out &o) { scInterrupt(pl, m, k, o); }, false, heavy ? 0 : 1, heavy ? 1 : 2, heavy ? 2000 : 1500});
+    return v;
+}
+static bool findScenario(const std::string &name, Scenario &sc)
+{
+    size_t p = name.rfind("-k");
+    if (p == std::string::npos)
+        return false;
+    for (auto &s : jobScenarios(name.substr(0, p), true))
+        if (s.name == name)
+        {
+            sc = s;
+            return true;
+        }
+    for (auto &s : jobScenarios(name.substr(0, p), false))
+        if (s.name == name)
+        {
+            sc = s;
+            return true;
+        }
+    return false;
+}
+#else
+static const char *PROP = "C19";
+static std::vector<Scenario> scenarios();
+static std::vector<std::string> jobNames()
+{
+    std::vector<std::string> j;
+    for (auto &s : scenarios())
+        j.push_back(s.name);
+    return j;
+}
+static std::vector<Scenario> jobScenarios(const std::string &job, bool)
+{
+    std::vector<Scenario> v;
+    for (auto &s : scenarios())
+        if (job == s.name)
+            v.push_back(s);
+    return v;
+}
+static bool findScenario(const std::string &name, Scenario &sc)
+{
+    for (auto &s : scenarios())
+        if (name == s.name)
+        {
+            sc = s;
+            return true;
+        }
+    return false;
+}
 static std::vector<Scenario> scenarios()
 {
     return {
@@ -441,6 +611,7 @@ static std::vector<Scenario> scenarios()
         {"APS-wall", [](tse::Out &o) { scPlanner("APS-wall", o); }, false, 1, 1, 3000},
     };
 }
+#endif
 
 #ifndef C19_FREERUN
 // ---- second confirmation: the free-running ThreadSanitizer pass (same scenario body, real libtsan, no scheduler) ----
@@ -546,13 +717,13 @@ int main(int argc, char **argv)
     ompl::msg::setLogLevel(ompl::msg::LOG_NONE);
     std::string name = argc > 1 ? argv[1] : "";
     int reps = argc > 2 ? atoi(argv[2]) : 20;
-    for (auto &sc : scenarios())
-        if (name == sc.name)
-            for (int i = 0; i < reps; ++i)
-            {
-                tse::Out o;
-                sc.body(o);
-            }
+    Scenario sc;
+    if (findScenario(name, sc))
+        for (int i = 0; i < reps; ++i)
+        {
+            tse::Out o;
+            sc.body(o);
+        }
     return 0;
 }
 #else
@@ -560,18 +731,18 @@ int main(int argc, char **argv)
 {
     ompl::msg::setLogLevel(ompl::msg::LOG_NONE);
     vf::Harness H;
-    H.property = "C19";
-    H.jobs = [](const vf::Args &) {
-        std::vector<std::string> j;
-        for (auto &s : scenarios())
-            j.push_back(s.name);
-        return j;
-    };
-    H.run = [](const std::string &job, const vf::Args &a, vf::Report &rep) {
-        Scenario sc;
-        for (auto &s : scenarios())
-            if (job == s.name)
-                sc = s;
+    H.property = PROP;
+    H.jobs = [](const vf::Args &) { return jobNames(); };
+    H.run = [](const std::string &jobName, const vf::Args &a, vf::Report &rep) {
+      for (auto &sc : jobScenarios(jobName, a.thorough()))
+      {
+        if (a.expired())
+        {
+            rep.exhaustive = false;
+            rep.caps.push_back("deadline before " + sc.name);
+            break;
+        }
+        const std::string job = sc.name;
         tse::Explorer E;
         E.P = a.thorough() ? sc.P_thorough : sc.P_quick;
         E.maxSchedules = a.thorough() ? sc.cap * 4 : sc.cap;
@@ -588,16 +759,17 @@ int main(int argc, char **argv)
         rep.evaluations += E.schedules;
         rep.validated += 1;
         for (auto &o : E.outcomes)
-            rep.outcomes.insert(vf::hstr(o.first));
+            rep.outcomes.insert(vf::hstr(job + o.first));
         // non-trivial = schedules with at least one preemption (last round)
         for (long i = 0; i < E.preemptedSchedules; ++i)
             rep.nontrivial.insert(vf::hstr(job) + i);
-        rep.metrics["rounds_to_fixpoint"] = E.rounds;
-        rep.metrics["max_threads"] = E.maxThreads;
-        rep.metrics["max_virtual_ms"] = E.maxVirtualNs / 1e6;
-        rep.metrics["max_instrumented_accesses"] = E.maxAccesses;
-        rep.metrics["scheduling_sites_atomic"] = E.sets.atomicPCs.size();
-        rep.metrics["scheduling_sites_racy"] = E.sets.schedPCs.size();
+        auto mx = [&](const char *k, double v) { rep.metrics[k] = std::max(rep.metrics.count(k) ? rep.metrics[k] : 0.0, v); };
+        mx("rounds_to_fixpoint", E.rounds);
+        mx("max_threads", E.maxThreads);
+        mx("max_virtual_ms", E.maxVirtualNs / 1e6);
+        mx("max_instrumented_accesses", E.maxAccesses);
+        mx("scheduling_sites_atomic", E.sets.atomicPCs.size());
+        mx("scheduling_sites_racy", E.sets.schedPCs.size());
         rep.bounds["preemption_bound_" + job] = std::to_string(E.P);
         if (E.capHit)
         {
@@ -637,7 +809,7 @@ int main(int argc, char **argv)
         {
             std::string key = f.first;
             if (key.substr(0, 6) == "FATAL|")
-                key = "C19|" + std::string(sc.part1 ? "surface" : "planner") + "|" + job + "|" + key.substr(6);
+                key = std::string(PROP) + "|" + std::string(sc.part1 ? "surface" : "planner") + "|" + job + "|" + key.substr(6);
             rep.fail(key, f.second.first + " [" + std::to_string(E.failureCount[f.first]) + " of " + std::to_string(E.schedules) + " schedules]",
                      "{\"scenario\":" + vf::jesc(job) + ",\"schedule\":" + schedJson(f.second.second) + ",\"P\":" + std::to_string(E.P) + "," + setsJson() + "}");
         }
@@ -682,17 +854,11 @@ int main(int argc, char **argv)
                            "worker randomness is fixed by a per-thread default answer stream (hook H1): the schedule is the only nondeterminism",
                            "a race on the documented thread-safe surface counts only when confirmed: by an exhibited consequence or by the free-running ThreadSanitizer pass",
                            "races inside multi-threaded planners are recorded, only oracle failures, deadlocks, livelocks and crashes are violations there"};
+      }
     };
     H.replay = [](const vf::JV &v) {
         Scenario sc;
-        bool found = false;
-        for (auto &s : scenarios())
-            if (v["scenario"].s == s.name)
-            {
-                sc = s;
-                found = true;
-            }
-        if (!found)
+        if (!findScenario(v["scenario"].s, sc))
             return false;
         tse::Explorer E;
         for (auto &x : v["sched"].a)
@@ -730,6 +896,7 @@ int main(int argc, char **argv)
                 printf("%s: %s\n", f.first.c_str(), f.second.first.c_str());
             return !E.failures.empty();
         }
+        printf("observation: %s\n", x.out.obs.c_str());
         for (auto &f : x.out.fails)
             printf("%s: %s\n", f.first.c_str(), f.second.c_str());
         if (!x.fatal.empty())
